@@ -41,7 +41,7 @@ Section Orchestration.
   Definition in_season (c : ClockP) (s : St) : bool :=
     if 0 <=? season s then
       match nthZ (plant c) (season s), nthZ (harv c) (season s) with
-      | Some p, Some h => (p <=? tsc s) && (tsc s <=? h) && negb (mature s) && negb (dead (phys s))
+      | Some p, Some h => (p <=? tsc s) && (tsc s <=? h) && negb (mature s) && negb (dead (phys s)) && negb (hflag s)
       | _, _ => false
       end
     else false.
